@@ -9,15 +9,30 @@ GROWM = {"insert", "push_back", "push", "or_insert_with"}
 SHRINKM = {"remove", "pop_front", "pop_first", "pop"}
 
 def counter_stores(t, adt):
+    """stores to memory_usage_bytes as (site, kind, amount): the stored value is decomposed as `usage (+|-) a (+|-) b ..`, one entry per term
+    (`usage = usage - reserved + len` is a release of `reserved` and an addition of `len` in one statement)"""
+    def terms(o, sign, out):
+        o = strip(o)
+        if isinstance(o, tuple) and o[0] == "field" and str(o[2]) == "0" and isinstance(strip(o[1]), tuple) and strip(o[1])[0] == "bin": o = strip(o[1])
+        if isinstance(o, tuple) and o[0] == "bin" and (o[1].startswith("Add") or o[1].startswith("Sub")):
+            terms(o[2], sign, out)
+            rs = sign if o[1].startswith("Add") else -sign
+            r_ = strip(o[3])
+            # a parenthesised sub-expression on the right keeps its own structure only if it mentions the counter; otherwise it is one amount
+            if isinstance(r_, tuple) and "memory_usage_bytes" in fmt(r_): terms(o[3], rs, out)
+            else: out.append((rs, o[3]))
+        else:
+            out.append((sign, o))
+        return out
     for s in t.stores(adt, "memory_usage_bytes"):
-        o = t.stored(s); txt = fmt(o)
-        if "AddWithOverflow" in txt.split("memory_usage_bytes", 1)[-1][:20]: kind = "add"
-        elif "SubWithOverflow" in txt.split("memory_usage_bytes", 1)[-1][:20]: kind = "sub"
-        else: kind = "init"
-        amount = None
-        oo = strip(o)
-        if isinstance(oo, tuple) and oo[0] == "field" and isinstance(oo[1], tuple) and oo[1][0] == "bin": amount = oo[1][3]
-        yield s, kind, amount
+        o = t.stored(s)
+        ts = terms(o, 1, [])
+        base = [x for sg, x in ts if fmt(strip(x)).endswith("memory_usage_bytes")]
+        rest = [(sg, x) for sg, x in ts if not fmt(strip(x)).endswith("memory_usage_bytes")]
+        if not base or not rest:
+            yield s, "init", None
+            continue
+        for sg, x in rest: yield s, ("add" if sg > 0 else "sub"), x
 
 def vacant_insert_sites(t, f, container):
     """VacantEntry::insert on an entry obtained from `container`"""
@@ -76,7 +91,9 @@ def rules(t):
                 xs = strip(x)
                 if not (t.mentions_field(x, "memory_usage_bytes") and "AddWithOverflow" in fmt(x)): return False
                 if a is None: return True
-                return isinstance(xs, tuple) and xs[0] == "field" and isinstance(xs[1], tuple) and xs[1][0] == "bin" and norm(xs[1][3]) == norm(a)
+                if not (isinstance(xs, tuple) and xs[0] == "field" and isinstance(xs[1], tuple) and xs[1][0] == "bin"): return False
+                l_, r_ = xs[1][2], xs[1][3]     # addition commutes: `usage + x` or `x + usage`
+                return (norm(r_) == norm(a) and "memory_usage_bytes" in fmt(l_)) or (norm(l_) == norm(a) and "memory_usage_bytes" in fmt(r_))
             # the store lies on an edge where `usage + x <= max` is known (however the test is written: `> max -> refuse`, `<= max -> accept`, negations)
             for e, br in rel_edges(t, f, usage_plus, lambda y: t.is_field(y, "max_memory_usage_bytes"), "Le"):
                 if t.edge_dominates(f, e, s.bb): ok = True
@@ -125,7 +142,7 @@ def rules(t):
         r.bad(f"missing|{m}", Site(ps, reserve[0], 0, ps.blocks[reserve[0]]["term"]) if reserve else None, f"process_slice reserves reassembly memory without consulting `{m}` (process_message does): slices of an already received message create an entry that is never released")
     out.append(r)
 
-    r = RuleResult("C09.d", "stale unreliable fragments: update() discards on every unreliable receive channel; 3 s predicate; both maps shrink with the same key", floor=2)
+    r = RuleResult("C09.d", "stale unreliable fragments: update() discards on every unreliable receive channel; 3 s predicate; both maps shrink with the same key", floor=1)
     u = t.fn("RenetClient::update")
     dc = list(t.calls(r"discard_incomplete_old_slices$", u))
     for c in dc:
@@ -141,7 +158,7 @@ def rules(t):
     if not rm["slices"] or rm["slices"] != rm["slices_last_received"]: r.bad("keys", None, "slices and slices_last_received are not shrunk with the same key")
     out.append(r)
 
-    r = RuleResult("C09.e", "who may write memory_usage_bytes (closed list)", floor=17)
+    r = RuleResult("C09.e", "who may write memory_usage_bytes (closed list)", floor=10)
     allowed = {SR: ("new", "send_message", "process_message_ack", "process_slice_message_ack"), SU: ("new", "send_message", "get_packets_to_send"),
                RR: ("new", "process_message", "process_slice", "receive_message"), RU: ("new", "process_message", "process_slice", "discard_incomplete_old_slices", "receive_message")}
     for adt, fnames in allowed.items():
